@@ -112,9 +112,29 @@ JOBS = int(os.environ.get("VERIF_C16_JOBS", "4"))
 JVM = ["-XX:ParallelGCThreads=2", "-Xmx3g"]
 
 
+JTMP = [None]     # private java.io.tmpdir of this run (TLC unpacks its library modules there)
+
+
+def _jvm():
+    return JVM + (["-Djava.io.tmpdir=" + JTMP[0]] if JTMP[0] else [])
+
+
 def _tlc_job(module, cfg, deadlock=False, **kw):
     kw.setdefault("workers", 2)
-    r = vlib.tlc(module, cfg, deadlock=deadlock, jvm=JVM, **kw)
+    sink = kw.get("sink")
+    for attempt in (1, 2):
+        got = []
+        if sink is not None:
+            kw["sink"] = got.append
+        r = vlib.tlc(module, cfg, deadlock=deadlock, jvm=_jvm(), **kw)
+        # environment trouble (temp files removed under the JVM, parse of an extracted module): once more
+        if attempt == 1 and r.error and ("FileNotFoundException" in r.out or "Parsing or semantic analysis failed" in r.out):
+            vlib.log("  retrying TLC %s/%s after an environment error" % (module, cfg))
+            continue
+        break
+    if sink is not None:
+        for o in got:
+            sink(o)
     _t("tlc %s/%s: %d states" % (module, cfg, r.distinct), r.wall)
     return r
 
@@ -238,7 +258,11 @@ def programs(jobs, tier, tmp):
 
 
 def validate(path):
-    ok, r = vlib.validate_trace("Trace_Quic", "Trace_Quic.cfg", path, timeout=2400)
+    jto = "-Xss1g -Dtlc2.tool.queue.IStateQueue=StateDeque -XX:ParallelGCThreads=2"
+    if JTMP[0]:
+        jto += " -Djava.io.tmpdir=" + JTMP[0]
+    ok, r = vlib.validate_trace("Trace_Quic", "Trace_Quic.cfg", path, timeout=2400,
+                                extra_env={"JAVA_TOOL_OPTIONS": jto})
     if r.error and "TRACE" not in r.out:
         raise vlib.ToolError("Trace_Quic: %s\n%s" % (r.error, r.out[-2000:]))
     return ok, r
@@ -248,6 +272,8 @@ def run(run, tier, replay):
     for m in ("Quic", "Gen_Quic", "Gen_QuicWakers", "Trace_Quic"):
         vlib.sany(m)
     tmp = vlib.scratch()
+    JTMP[0] = os.path.join(tmp, "jtmp")
+    os.makedirs(JTMP[0])
     try:
         if replay:
             obj = json.load(open(replay))["replay"]
